@@ -30,6 +30,17 @@ def reByName (n : String) : Option Re :=
 def flag? (w : String) : Option Bool :=
   if w == "1" then some true else if w == "0" then some false else none
 
+/-- string items, flattened: `0 c` ordinary, `1 d` escape, `2 k` continuation, `3 k d n ds…` hex escape + line break -/
+def sitems? : Nat → List Nat → Option (List SItem)
+  | _, [] => some []
+  | 0, _ => none
+  | fuel + 1, 0 :: c :: rest => (sitems? fuel rest).map (SItem.ord c :: ·)
+  | fuel + 1, 1 :: d :: rest => (sitems? fuel rest).map (SItem.esc d :: ·)
+  | fuel + 1, 2 :: k :: rest => (sitems? fuel rest).map (SItem.cont k :: ·)
+  | fuel + 1, 3 :: k :: d :: n :: rest =>
+    if n ≤ rest.length then (sitems? fuel (rest.drop n)).map (SItem.hexnl d (rest.take n) k :: ·) else none
+  | _, _ => none
+
 /-- one lexeme of `Lex2`, written `kind,arg,…` (arguments: dotted hex code points) -/
 def lex2? (w : String) : Option Lex2 :=
   match (w.splitOn ",").map fun a => (a, decCps a) with
@@ -47,6 +58,7 @@ def lex2? (w : String) : Option Lex2 :=
   | [("ur", _), (_, some [u]), (_, some (h :: hs))] => some (.urange u h hs)
   | [("cmt", _), (_, some body)] => some (.cmt body)
   | [("cdc", _)] => some .cdc
+  | [("stri", _), (_, some [q]), (_, some enc)] => (sitems? (enc.length + 1) enc).map (Lex2.strI q ·)
   | _ => none
 
 def lex2All? : List String → Option (List Lex2)
